@@ -30,3 +30,31 @@ pub mod futures {
     pub mod stream { pub trait StreamExt { } }
     pub mod prelude { }
 }
+
+// @FLAVOUR tokio
+pub mod tokio {
+    pub mod fs {
+        pub use crate::shims::std::fs::{File, read, copy, remove_file, create_dir_all, OpenOptions, DirBuilder, metadata, remove_dir_all};
+    }
+    pub mod io {
+        use vstd::prelude::*;
+        pub use crate::shims::std::io::{BufReader, Result};
+        pub use crate::shims::futures::io::{AsyncRead, AsyncReadExt, AsyncBufReadExt, AsyncWrite, AsyncWriteExt};
+        /// tokio::io::ReadBuf: a buffer of `cap` bytes whose first `filled.len()` bytes are filled
+        #[verifier::external_body]
+        pub struct ReadBuf<'a> { b: &'a mut [u8] }
+        pub struct ReadBufV { pub filled: Seq<u8>, pub cap: nat }
+        impl<'a> View for ReadBuf<'a> { type V = ReadBufV; uninterp spec fn view(&self) -> ReadBufV; }
+        impl<'a> ReadBuf<'a> {
+            #[verifier::external_body]
+            pub fn filled(&self) -> (r: &[u8]) ensures r@ == self@.filled { unimplemented!() }
+            #[verifier::external_body]
+            pub fn remaining(&self) -> (r: usize) ensures r == self@.cap - self@.filled.len() { unimplemented!() }
+        }
+    }
+    pub mod task {
+        pub use crate::shims::async_std::task::JoinHandle;
+    }
+}
+pub mod tokio_stream { pub mod wrappers { } }
+// @ENDFLAVOUR
